@@ -10,7 +10,7 @@ LO_DIR = os.path.dirname(os.path.realpath(linear_operator.__file__)) + os.sep
 GENERIC = re.compile(
     r"(not|n't) (currently |yet )?(support|implement)|does not (support|accept|allow)|unsupported|not applicable|"
     r"is not possible|\b(can )?only (works?|supports?|accepts?|defined|implemented|operates?)|cannot (permute|transpose)|"
-    r"Invalid (repeat|expand) arguments|are not (invertible|positive definite)|At the moment",
+    r"Invalid (repeat|expand) arguments|are not (invertible|positive definite)|At the moment|\bexpects?\b|\bcannot\b",
     re.I,
 )
 
